@@ -10,8 +10,8 @@ The arithmetic is abstract: `X` = vectors of variable values, `D` = Newton direc
            real arithmetic ignores; the trace world of the driver uses it to name the points.
   timeUp : `time.time() - t0 >= self.time_limit` when tested at the top of outer iteration `k`
 The solver does not return `x`: its result is the state the MODEL is left in (`loaded`, the argument of the last
-`model.load_var_values_from_x`), next to the local `x`.  UnboundLocalError (`MAXITER = 0`: `outer_iter` unbound at the
-final return; `BT_MAXITER = 0`: `iter_bt` unbound at the exhaustion test) is the outcome `crash`.
+`model.load_var_values_from_x`), next to the local `x`.  (Since fix 14495b3c the loop variables are bound before the loops,
+so `MAXITER = 0` / `BT_MAXITER = 0` are reported failures, not UnboundLocalErrors.)
 -/
 namespace Wntr.Newton
 
@@ -24,10 +24,6 @@ structure Opts where
   btStartIter : Nat   -- BT_START_ITER (0)
   /-- the constant `0.0001` of the sufficient-decrease test, as the double it is -/
   c1 : Rat
-  /-- code variant, read off the source by the translator: the loop variables are bound before the loops
-  (`outer_iter = 0`, `iter_bt = -1`; fix C16-newton-zero-limits).  Without it `MAXITER = 0` / `BT_MAXITER = 0` die with
-  UnboundLocalError. -/
-  zeroSafe : Bool := false
   deriving Repr, Inhabited
 
 inductive Status where
@@ -44,10 +40,9 @@ inductive Msg where
   | maxIter     -- "Reached maximum number of iterations: k"
   deriving DecidableEq, Repr, Inhabited
 
-/-- the returned tuple `(status, message, iter_count)`, or an UnboundLocalError -/
+/-- the returned tuple `(status, message, iter_count)` -/
 inductive Outcome where
   | ret (st : Status) (msg : Msg) (iter : Nat)
-  | crash
   deriving DecidableEq, Repr, Inhabited
 
 structure World (X D : Type) where
@@ -83,20 +78,20 @@ variable {X D : Type}
 structure LS (X : Type) where
   /-- left through `break` -/
   accepted : Bool
-  /-- last value of `iter_bt` -/
-  iterBt : Nat
+  /-- last value of `iter_bt` (`-1` when the loop body never ran) -/
+  iterBt : Int
   st : St X
 
 /-- the backtracking loop from `iter_bt = i` with `n` passes left; `base` is the local `x` the trials start from -/
 def lsLoop (wd : World X D) (o : Opts) (base : X) (d : D) (rNorm : Option Rat) :
     Nat → Nat → Rat → St X → LS X
-  | i, 0, _, s => { accepted := false, iterBt := i - 1, st := s }
+  | i, 0, _, s => { accepted := false, iterBt := (i : Int) - 1, st := s }
   | i, n + 1, alpha, s =>
     let x_ := wd.move base d alpha s.nEval            -- x_ = x + alpha * d
     let nn := wd.norm x_                              -- load x_; r_ = evaluate_residuals(); new_norm = max|r_|
     let s1 : St X := { s with loaded := x_, newNorm := nn, nEval := s.nEval + 1 }
     if ltO nn (mulO (1 - o.c1 * alpha) rNorm) then
-      { accepted := true, iterBt := i, st := { s1 with x := x_ } }   -- x = x_; break
+      { accepted := true, iterBt := (i : Int), st := { s1 with x := x_ } }   -- x = x_; break
     else lsLoop wd o base d rNorm (i + 1) n (alpha * o.rho) s1        -- alpha = alpha * rho
 
 /-- `r`, `r_norm` at the top of a pass: the stored trial residual, or a fresh evaluation at the model's state -/
@@ -111,11 +106,9 @@ inductive Step (X : Type) where
 /-- the `if self.bt and outer_iter >= self.bt_start_iter:` branch -/
 def btPass (wd : World X D) (o : Opts) (i : Nat) (s1 : St X) (rNorm : Option Rat) (d : D) : Step X :=
   let s2 : St X := { s1 with useR := true }
-  if o.btMaxiter = 0 && !o.zeroSafe then .done .crash s2        -- `iter_bt` unbound
-  else
-    let ls := lsLoop wd o s2.x d rNorm 0 o.btMaxiter 1 s2
-    if ls.iterBt + 1 ≥ o.btMaxiter then .done (.ret .error .lineSearch i) ls.st
-    else .next ls.st
+  let ls := lsLoop wd o s2.x d rNorm 0 o.btMaxiter 1 s2     -- `iter_bt = -1`, then the loop
+  if ls.iterBt + 1 ≥ (o.btMaxiter : Int) then .done (.ret .error .lineSearch i) ls.st
+  else .next ls.st
 
 /-- the `else:` branch: `x += d; model.load_var_values_from_x(x)` -/
 def plainPass (wd : World X D) (s1 : St X) (d : D) : Step X :=
@@ -135,7 +128,7 @@ def pass (wd : World X D) (o : Opts) (i : Nat) (s : St X) : Step X :=
 
 /-- the main loop from `outer_iter = i` with `n` passes left -/
 def outer (wd : World X D) (o : Opts) : Nat → Nat → St X → Outcome × St X
-  | i, 0, s => (if o.maxiter = 0 && !o.zeroSafe then .crash else .ret .error .maxIter (i - 1), s)
+  | i, 0, s => (.ret .error .maxIter (i - 1), s)     -- `outer_iter` = its last value (0 when the body never ran)
   | i, n + 1, s =>
     match pass wd o i s with
     | .done out s' => (out, s')
@@ -173,8 +166,10 @@ inductive Catch where
 structure HelperShape where
   /-- `if solver is NewtonSolver: sol = NewtonSolver(solver_options).solve(model)` -/
   newtonFirst : Bool
-  /-- `elif solver is scipy.optimize.fsolve:` with `if ier != 1: error else: load; converged`, no `try` -/
+  /-- `elif solver is scipy.optimize.fsolve:` with `if ier != 1: error else: load; converged` -/
   fsolveByIer : Bool
+  /-- the `except` clause around the fsolve branch, if it is inside a `try` (fix C16-fsolve-exception) -/
+  fsolveCatch : Option Catch
   /-- the scipy.optimize functions of the third branch -/
   scipySolvers : List String
   scipyCatch : Catch
@@ -182,15 +177,15 @@ structure HelperShape where
   elseRaises : Bool
   deriving DecidableEq, Repr
 
-def refHelperShape : HelperShape :=
-  { newtonFirst := true, fsolveByIer := true,
+/-- the reference shape; the one variant point is whether the fsolve branch is wrapped -/
+def refHelperShape (fsolveCatch : Option Catch) : HelperShape :=
+  { newtonFirst := true, fsolveByIer := true, fsolveCatch := fsolveCatch,
     scipySolvers := ["newton_krylov", "anderson", "broyden1", "broyden2", "excitingmixing", "linearmixing", "diagbroyden"],
     scipyCatch := .all, elseRaises := true }
 
 /-- the triple `_solver_helper` returns (`iter_count` is None for the scipy solvers), or the exception it lets through -/
 inductive Helper where
   | ret (status : Nat) (iter : Option Nat)
-  | unboundLocal
   | valueError
   | escaped        -- an exception of the scipy solver that the `except` clause does not name
   deriving DecidableEq, Repr
@@ -206,12 +201,14 @@ def helper (sh : HelperShape) (kind : SolverKind) (newton : Outcome) (sci : Scip
     match newton with
     | .ret .converged _ k => .ret 1 (some k)
     | .ret .error _ k => .ret 0 (some k)
-    | .crash => .unboundLocal
   | .fsolve =>
     match sci with
     | .ok => .ret 1 none
     | .notConverged => .ret 0 none
-    | .otherException => .escaped       -- no `try` in this branch
+    | .otherException =>
+      match sh.fsolveCatch with
+      | some c => if c.catches .otherException then .ret 0 none else .escaped
+      | none => .escaped                -- no `try` in this branch
   | .scipyOther =>
     match sci with
     | .ok => .ret 1 none
@@ -274,12 +271,12 @@ def nblock : List NStmt → NStmt
   | [] => .skip
   | s :: r => .seq s (nblock r)
 
-/-- the skeleton `lsLoop` / `outer` / `solve` were written from, in source order; `zs` = the variant with the loop
-variables bound before the loops -/
-def refSolve (zs : Bool) : NStmt := nblock ([
+/-- the skeleton `lsLoop` / `outer` / `solve` were written from, in source order -/
+def refSolve : NStmt := nblock [
   .act .getX,
   .ite .emptyX (.ret .converged .noVars) .skip,
-  .act (.setUseR false)] ++ (if zs then [.act .initOuterIter] else []) ++ [
+  .act (.setUseR false),
+  .act .initOuterIter,
   .forRange .maxiter (nblock [
     .ite .timeUp (.ret .error .timeLimit) .skip,
     .ite .useR (.act .useStored) (.act .evalResidual),
@@ -287,16 +284,120 @@ def refSolve (zs : Bool) : NStmt := nblock ([
     .act .evalJacobian,
     .tryLin (.act .linSolve) (.ret .error .singular),
     .act .alphaInit,
-    .ite .btEnabled (nblock ([
-        .act (.setUseR true)] ++ (if zs then [.act .initIterBt] else []) ++ [
+    .ite .btEnabled (nblock [
+        .act (.setUseR true),
+        .act .initIterBt,
         .forRange .btMaxiter (nblock [
           .act .trial,
           .act .loadTrial,
           .act .evalTrial,
           .ite .decrease (nblock [.act .accept, .brk]) (.act .shrink)]),
-        .ite .lsExhausted (.ret .error .lineSearch) .skip]))
+        .ite .lsExhausted (.ret .error .lineSearch) .skip])
       (nblock [.act .plainStep, .act .loadX])]),
-  .ret .error .maxIter])
+  .ret .error .maxIter]
+
+/-! ### interpreter of the skeleton
+
+`solveS prog` executes a skeleton on the same world: locals of `solve` that are not in `St` live in `NM`.  `Lemmas/NewtonShape.lean`
+proves `solveS refSolve = solve`; with `generated_newton_shape_is_ref` the theorems are about the generated program. -/
+
+inductive NFlow where
+  | normal
+  | broke                    -- `break`
+  | returned (out : Outcome) -- `return (...)`
+  | raisedLin                -- MatrixRankWarning propagating to the enclosing `try`
+  deriving DecidableEq, Repr
+
+structure NM (X D : Type) where
+  s : St X
+  rNorm : Option Rat       -- `r_norm`
+  d : Option D             -- `d`
+  alpha : Rat
+  xTrial : X               -- `x_`
+  outerIter : Nat
+  iterBt : Int
+  flow : NFlow
+
+def evalNCond (wd : World X D) (o : Opts) (empty : Bool) (m : NM X D) : NCond → Bool
+  | .emptyX => empty
+  | .timeUp => wd.timeUp m.outerIter
+  | .useR => m.s.useR
+  | .normLtTol => ltO m.rNorm (some o.tol)
+  | .btEnabled => o.bt && decide (m.outerIter ≥ o.btStartIter)
+  | .decrease => ltO m.s.newNorm (mulO (1 - o.c1 * m.alpha) m.rNorm)
+  | .lsExhausted => decide (m.iterBt + 1 ≥ (o.btMaxiter : Int))
+
+def doNAct (wd : World X D) (o : Opts) (m : NM X D) : NAct → NM X D
+  | .getX => m
+  | .setUseR b => { m with s := { m.s with useR := b } }
+  | .useStored => { m with rNorm := m.s.newNorm }
+  | .evalResidual => { m with rNorm := wd.norm m.s.loaded, s := { m.s with nEval := m.s.nEval + 1 } }
+  | .evalJacobian => m
+  | .linSolve =>
+    match wd.lin m.s.loaded m.outerIter with
+    | none => { m with flow := .raisedLin }
+    | some d => { m with d := some d }
+  | .alphaInit => { m with alpha := 1 }
+  | .trial =>
+    match m.d with
+    | some d => { m with xTrial := wd.move m.s.x d m.alpha m.s.nEval }
+    | none => m
+  | .loadTrial => { m with s := { m.s with loaded := m.xTrial } }
+  | .evalTrial => { m with s := { m.s with newNorm := wd.norm m.s.loaded, nEval := m.s.nEval + 1 } }
+  | .accept => { m with s := { m.s with x := m.xTrial } }
+  | .shrink => { m with alpha := m.alpha * o.rho }
+  | .plainStep =>
+    match m.d with
+    | some d => { m with s := { m.s with x := wd.move m.s.x d 1 m.s.nEval } }
+    | none => m
+  | .loadX => { m with s := { m.s with loaded := m.s.x } }
+  | .initOuterIter => { m with outerIter := 0 }
+  | .initIterBt => { m with iterBt := -1 }
+
+def setLoopVar (r : Range) (i : Nat) (m : NM X D) : NM X D :=
+  match r with
+  | .maxiter => { m with outerIter := i }
+  | .btMaxiter => { m with iterBt := (i : Int) }
+
+def rangeLen (o : Opts) : Range → Nat
+  | .maxiter => o.maxiter
+  | .btMaxiter => o.btMaxiter
+
+/-- `for v in range(n): body` from `v = i` with `n` passes left -/
+def loopN (body : NM X D → NM X D) (setVar : Nat → NM X D → NM X D) : Nat → Nat → NM X D → NM X D
+  | _, 0, m => m
+  | i, n + 1, m =>
+    let m1 := body (setVar i m)
+    match m1.flow with
+    | .normal => loopN body setVar (i + 1) n m1
+    | .broke => { m1 with flow := .normal }
+    | _ => m1
+
+def execN (wd : World X D) (o : Opts) (empty : Bool) : NStmt → NM X D → NM X D
+  | .skip, m => m
+  | .act a, m => doNAct wd o m a
+  | .seq s t, m =>
+    let m1 := execN wd o empty s m
+    match m1.flow with
+    | .normal => execN wd o empty t m1
+    | _ => m1
+  | .ite c t e, m => if evalNCond wd o empty m c then execN wd o empty t m else execN wd o empty e m
+  | .forRange r body, m => loopN (execN wd o empty body) (setLoopVar r) 0 (rangeLen o r) m
+  | .tryLin body handler, m =>
+    let m1 := execN wd o empty body m
+    match m1.flow with
+    | .raisedLin => execN wd o empty handler { m1 with flow := .normal }
+    | _ => m1
+  | .ret st msg, m => { m with flow := .returned (.ret st msg (if msg = .noVars then 0 else m.outerIter)) }
+  | .brk, m => { m with flow := .broke }
+
+/-- `solve` as the interpretation of a skeleton (`none`: the program fell off its end or let an exception through) -/
+def solveS (prog : NStmt) (wd : World X D) (o : Opts) (empty : Bool) (x0 : X) : Option Outcome × St X :=
+  let m0 : NM X D :=
+    { s := { x := x0, loaded := x0, useR := false, newNorm := none, nEval := 0 }, rNorm := none, d := none, alpha := 1,
+      xTrial := x0, outerIter := 0, iterBt := -1, flow := .normal }
+  let m := execN wd o empty prog m0
+  (match m.flow with | .returned out => some out | _ => none, m.s)
 
 /-! ### the trace world used by the correspondence driver: points are named by the evaluation index -/
 
